@@ -79,6 +79,27 @@ def class_level_params_access(node):
     return out
 
 
+def class_set_after_install(ctx, rule):
+    """The metaclass installs the per-class copy before it lets the copy's __set__ run (and notify class-level watchers); shared by R13.e and R03.s."""
+    # ---------------------------------------------------------------- R13.e
+    ms = ctx.repo.func("param.parameterized.ParameterizedMetaclass.__setattr__")
+    mc = ctx.facts.cfg(ms)
+    sets = [n for n in mc.live_nodes() for c in calls_in(n) if isinstance(c.func, ast.Attribute) and c.func.attr == "__set__" and c.args and norm(c.args[0]) == "None"]
+    ctx.require(sets, "metaclass __setattr__ no longer delegates to the descriptor's __set__(None, value)")
+    installs = [n for n in mc.live_nodes() for c in calls_in(n) if norm(c.func) == "type.__setattr__" and len(c.args) == 3 and isinstance(c.args[2], ast.Name)
+                and any("owning_class" in norm(e) for e, t in mc.conditions(n))]
+    for sn in sets:
+        early = [i for i in installs if any(x is i for x in mc.reachable_from([sn]))]
+        via_ns = any(isinstance(c.func, ast.Attribute) and c.func.attr == "__set__" and "__dict__" in norm(c.func.value) for c in calls_in(sn))
+        if early:
+            ctx.fail(rule, ms, sn, "`%s` runs (and dispatches class-level watchers) before the copied Parameter is installed in the class namespace: inside the callback "
+                                      "getattr / .param still resolve to the ancestor's Parameter, and a re-assignment made by the callback is overwritten" % sn.text()[:70],
+                     key=ms.qualname + "::set-before-install",
+                     input="class-level watcher on an inherited Parameter; first Sub.x = v -> inside the callback Sub.x is still the old value")
+        else:
+            ctx.ok(rule, ms, sn, "the set happens after the install%s" % (" and goes through the namespace entry" if via_ns else ""))
+
+
 def value_reporters_agree(ctx, rule):
     """get_value_generator / inspect_value: the Parameter looked up in the instance namespace only chooses the route (shared by R13.g and R19.v)."""
     # ---------------------------------------------------------------- R13.g
@@ -231,23 +252,7 @@ def run(ctx):
 
     # R13.d (shape of the MRO walk in _cls_parameters) was replaced by the namespace model R13.h, which interprets
     # the property and compares its result with attribute lookup; the shape rule rejected an equivalent dict-comprehension form.
-    # ---------------------------------------------------------------- R13.e
-    ms = ctx.repo.func("param.parameterized.ParameterizedMetaclass.__setattr__")
-    mc = ctx.facts.cfg(ms)
-    sets = [n for n in mc.live_nodes() for c in calls_in(n) if isinstance(c.func, ast.Attribute) and c.func.attr == "__set__" and c.args and norm(c.args[0]) == "None"]
-    ctx.require(sets, "metaclass __setattr__ no longer delegates to the descriptor's __set__(None, value)")
-    installs = [n for n in mc.live_nodes() for c in calls_in(n) if norm(c.func) == "type.__setattr__" and len(c.args) == 3 and isinstance(c.args[2], ast.Name)
-                and any("owning_class" in norm(e) for e, t in mc.conditions(n))]
-    for sn in sets:
-        early = [i for i in installs if any(x is i for x in mc.reachable_from([sn]))]
-        via_ns = any(isinstance(c.func, ast.Attribute) and c.func.attr == "__set__" and "__dict__" in norm(c.func.value) for c in calls_in(sn))
-        if early:
-            ctx.fail("R13.e", ms, sn, "`%s` runs (and dispatches class-level watchers) before the copied Parameter is installed in the class namespace: inside the callback "
-                                      "getattr / .param still resolve to the ancestor's Parameter, and a re-assignment made by the callback is overwritten" % sn.text()[:70],
-                     key=ms.qualname + "::set-before-install",
-                     input="class-level watcher on an inherited Parameter; first Sub.x = v -> inside the callback Sub.x is still the old value")
-        else:
-            ctx.ok("R13.e", ms, sn, "the set happens after the install%s" % (" and goes through the namespace entry" if via_ns else ""))
+    class_set_after_install(ctx, "R13.e")
 
     from checks.shared import memo_not_mutated_in_place
     memo_not_mutated_in_place(ctx, "R13.f")
